@@ -21,18 +21,39 @@ ID = "C15"
 PROPS = ["props/C15.v"]
 EXTRACTS = ["C15"]
 THEOREMS = [
-    "C15_reuse_only_if_digest", "C15_reuse_if_digest", "C15_no_digest_never_reused",
-    "C15_mismatch_never_kept", "C15_partial_file_replaced",
-    "C15_undecodable_fresh_removed_partial", "C15_metadata_error_leaves_no_fresh_file",
-    "C15_undecodable_other_exception_kept_refuted",
-    "C15_used_file_verified_or_fresh", "C15_broken_transfer_fails_run_partial",
-    "C15_transfer_refuted", "C15_transfer_full_statement_refuted", "C15_fresh_transfer_unverified_refuted",
-    "C15_page_retry_within_budget", "C15_page_retry_exhausted", "C15_page_error_never_parsed", "C15_is_5xx_spec",
-    "C15_user_dir_never_deleted", "C15_tmp_removed_all_exits_given", "C15_tmp_removed_all_exits_partial",
-    "C15_tmp_left_behind_refuted", "C15_cli_exits_table",
-    "C15_bzl_tmp_never_removed_refuted", "C15_bzl_user_dir_deleted_refuted", "C15_gen_download_shape",
-    "C15_scan_touches_only_candidate_files", "C15_honest_transfer_heals", "C15_user_dir_never_deleted_given",
+    "C15_reuse_only_if_digest",
+    "C15_reuse_if_digest",
+    "C15_no_digest_never_reused",
     "C15_stale_without_digest_replaced",
+    "C15_mismatch_never_kept",
+    "C15_partial_file_replaced",
+    "C15_undecodable_fresh_removed_partial",
+    "C15_metadata_error_leaves_no_fresh_file",
+    "C15_undecodable_other_exception_kept_refuted",
+    "C15_used_file_verified_or_fresh",
+    "C15_broken_transfer_fails_run_partial",
+    "C15_transfer_refuted",
+    "C15_transfer_full_statement_refuted",
+    "C15_fresh_transfer_unverified_refuted",
+    "C15_page_retry_within_budget",
+    "C15_page_retry_exhausted",
+    "C15_page_error_never_parsed",
+    "C15_is_5xx_spec",
+    "C15_user_dir_never_deleted",
+    "C15_tmp_removed_all_exits_given",
+    "C15_tmp_removed_all_exits",
+    "C15_cli_exits_table",
+    "C15_run_first_failure",
+    "C15_cli_covered_failures_exit_1",
+    "C15_cli_traceback_pairs_table",
+    "C15_cli_unusable_repository_is_diagnostic",
+    "C15_bzl_user_dir_never_deleted",
+    "C15_bzl_tmp_removed_all_exits_partial",
+    "C15_bzl_tmp_left_behind_refuted",
+    "C15_scan_touches_only_candidate_files",
+    "C15_honest_transfer_heals",
+    "C15_user_dir_never_deleted_given",
+    "C15_gen_download_shape",
 ]
 RULE = ("histories = (initial wheel directory, candidate list with advertised digests, server fault script): per file the "
         "directory holds nothing / the advertised file / a crash prefix of it (every prefix length for one wheel per run) / "
@@ -61,13 +82,15 @@ ASSUMPTIONS = [
     "candidates with equal sort keys are tried in listing order (sorted(reverse=True) is stable); the end-to-end listings keep such ties in the order the model is given",
     "the prerelease fallback of do_get_candidate (second pass with prereleases allowed) is outside the model: generated versions are final releases",
 ]
-LEVEL_TEXT = ("29 theorems proved in Coq over Gallina models of _do_download/resolve_candidate/do_get_candidate/_scan_page_links "
+LEVEL_TEXT = ("33 theorems proved in Coq over Gallina models of _do_download/resolve_candidate/do_get_candidate/_scan_page_links "
               "(all directories, crash prefixes, fault scripts, candidate lists; sha and the metadata verdict abstract) and of the "
               "exit paths of compile_main/compile_requirements (all stage-failure scripts, over facts regenerated from the source): "
               "reuse iff digest equal, every mismatching/partial file is replaced, MetadataError removes a fresh file, what the scan "
-              "uses is digest-verified or was transferred in this run, page 5xx retry budget, user directory never deleted by the "
-              "command line; refuted with replayed witnesses: error page -> next version, unverified fresh transfer, non-MetadataError "
-              "failures keep the file, temp dir left behind on exits before the try, inverted flag in the Bazel front end.")
+              "uses is digest-verified or was transferred in this run, page 5xx retry budget; for compile_main the temporary wheel "
+              "directory is gone after EVERY exit, a user directory is never deleted, and every failure the handler table covers "
+              "(bad input, unusable repository argument, no candidate, bad metadata) is a diagnostic with exit status 1; refuted with "
+              "replayed witnesses: error page -> next version, unverified fresh transfer, non-MetadataError failures keep the file, "
+              "Bazel front end leaves its temp dir behind when build_repo fails.")
 LEVEL_NOTE = ("Trusted: Coq kernel, extraction, OCaml driver, T1 translator, T2 harness with fake session; sha/meta instantiations "
               "(toy hash, oracle table); kill -9 crash points are modelled as prefixes, not executed.")
 TECHNIQUE = "Rocq proof over Gallina models (finite-map lemmas, induction over candidate lists/fault scripts/statement lists) + T1 generated facts + extraction-based differential correspondence with scripted fake sessions and subprocess TMPDIR census"
@@ -1207,7 +1230,9 @@ def oracle_pages(mods) -> Optional[Dict[str, Any]]:
     return None
 
 
-CLI_GUARDED = ("success", "no-candidate", "bad-metadata", "other-exception-in-compile")
+# scenarios whose failure class the handlers of compile_main cover: diagnostic + exit status 1, no traceback
+CLI_DIAGNOSTIC = ("no-candidate", "bad-metadata", "bad-input-path", "bad-input-syntax", "no-repository",
+                  "missing-find-links", "missing-source-dir", "unannotated-solution")
 
 
 def oracle_cli(ctx: Ctx, only: Optional[Tuple[str, bool]] = None) -> Optional[Dict[str, Any]]:
@@ -1222,9 +1247,12 @@ def oracle_cli(ctx: Ctx, only: Optional[Tuple[str, bool]] = None) -> Optional[Di
             if user and not o["user_exists"]:
                 return {"kind": "cli", "input": {"scenario": name, "user_dir": True},
                         "why": "the wheel directory supplied with --wheel-dir was deleted"}
-            if not user and name in CLI_GUARDED and o["tmp_left"] != 0:
+            if not user and o["tmp_left"] != 0:
                 return {"kind": "cli", "input": {"scenario": name, "user_dir": False},
-                        "why": "the temporary wheel directory is still there after the run ended (exit at/after perform_compile)"}
+                        "why": "the temporary wheel directory is still there after the run ended"}
+            if name in CLI_DIAGNOSTIC and (o["rc"] != 1 or o["traceback"]):
+                return {"kind": "cli", "input": {"scenario": name, "user_dir": user},
+                        "why": f"the failure is not reported as a diagnostic with exit status 1 (rc={o['rc']}, traceback={o['traceback']})"}
     return None
 
 
@@ -1303,5 +1331,9 @@ def replay_known(ctx: Ctx, entry: Dict[str, Any]) -> Optional[bool]:
         sc = {n: a for n, a, s in bzl_scenarios(fx)}
         o1 = run_bzl_case(fx, "success", sc["success"], False, 2001)
         o2 = run_bzl_case(fx, "success", sc["success"], True, 2002)
-        return o1["tmp_left"] > 0 and o2["user_exists"] is False
+        return o1["tmp_left"] > 0 or o2["user_exists"] is False
+    if kind == "bzl-early":
+        sc = {n: a for n, a, s in bzl_scenarios(fx)}
+        o = run_bzl_case(fx, j["scenario"], sc[j["scenario"]], False, 2003)
+        return o["tmp_left"] > 0
     return None
